@@ -163,7 +163,7 @@ func c20Expected(eds []edsv1.ExtendedDaemonSet, ers []edsv1.ExtendedDaemonSetRep
 // parameters once); a scrape that panics or a series set that never catches up although the requests look right is
 // reported as such; a time-out without any other sign makes the case inconclusive.
 func TestC20Store(t *testing.T) {
-	rec := evid.New("TestC20Store", "C20", "the production path GetExtraMetricHandlers -> AddMetrics -> reflectors -> stores -> /ksmetrics handler against a fake API server (discovery, list, watch, 410 Gone): 1-2 ExtendedDaemonSets and 0-2 replica sets with generated counters, states and labels; 2-5 steps from {EDS modified (watch event), replica set modified (watch event), replica set added (watch event), EDS watch expires while an EDS changes (relist), replica-set watch expires while a replica set changes}; oracle after every step: the served series equal the series the generators yield for the server's objects (waiting up to two minutes; a healthy store follows within milliseconds), every collection request has the shape of a list or of a watch with each parameter once, a scrape does not panic; non-trivial = a relist after an expired watch; distinct by configuration")
+	rec := evid.New("TestC20Store", "C20", "the production path GetExtraMetricHandlers -> AddMetrics -> reflectors -> stores -> /ksmetrics handler against a fake API server (discovery, list, watch, 410 Gone): 1-2 ExtendedDaemonSets and 0-2 replica sets with generated counters, states and labels; 2-5 steps from {EDS modified (watch event), replica set modified (watch event), replica set added (watch event), EDS watch expires while an EDS changes (relist), replica-set watch expires while a replica set changes}; oracle after every step: the served series equal the series the generators yield for the server's objects (waiting up to two minutes; a healthy store follows within milliseconds), every collection request has the shape of a list or of a watch with each parameter once, a scrape does not panic; at the end two overlapping scrapes (a slow one held half-way while an object changes and a second scrape is served) each return the text of one state, before or after the change; non-trivial = a relist after an expired watch; distinct by configuration")
 	t.Cleanup(func() {
 		if !t.Failed() {
 			rec.Done()
@@ -266,6 +266,7 @@ func TestC20Store(t *testing.T) {
 		}
 		same := func(a, b []string) bool { return strings.Join(a, "\n") == strings.Join(b, "\n") }
 		relisted := false
+		expired := map[string]int{} // per resource: how many of the watches opened so far have been expired
 		settleStep := func(when string) bool {
 			api.mu.Lock()
 			want := c20Expected(api.eds, api.ers)
@@ -346,6 +347,17 @@ func TestC20Store(t *testing.T) {
 			}
 			var expire chan struct{}
 			if strings.HasSuffix(st, "-watch-expires") {
+				// only an open watch can expire: wait until the reflector has opened one since the last expiry (the series can
+				// match right after the list, before the watch request has arrived)
+				for waited := 0; api.watches[res] <= expired[res]; waited++ {
+					api.mu.Unlock()
+					if waited > 6000 {
+						rt.Fatalf("harness: no watch on %s was opened within 60s (%s)", res, desc)
+					}
+					time.Sleep(10 * time.Millisecond)
+					api.mu.Lock()
+				}
+				expired[res] = api.watches[res]
 				expire = api.expire[res]
 				api.expire[res] = make(chan struct{})
 				relisted = true
@@ -360,6 +372,72 @@ func TestC20Store(t *testing.T) {
 			}
 			ok = settleStep(fmt.Sprintf("after step %d (%s)", i+1, st))
 		}
+		// two overlapping scrapes with a change in between: a slow scraper has taken part of its response when an
+		// ExtendedDaemonSet changes and a second scrape is served. Each response must be the text of one state the
+		// server held - the one before or the one after the change - never a mixture
+		if ok {
+			api.mu.Lock()
+			before := c20Expected(api.eds, api.ers)
+			api.mu.Unlock()
+			sw := &c20SlowWriter{header: http.Header{}, blocked: make(chan struct{}), release: make(chan struct{})}
+			doneA := make(chan string, 1)
+			go func() {
+				defer func() {
+					if p := recover(); p != nil {
+						doneA <- fmt.Sprintf("panic: %v", p)
+						return
+					}
+					doneA <- ""
+				}()
+				handlers["/ksmetrics"].ServeHTTP(sw, httptest.NewRequest("GET", "/ksmetrics", nil))
+			}()
+			select {
+			case <-sw.blocked:
+			case <-time.After(60 * time.Second):
+				rt.Fatalf("harness: the slow scrape did not start within 60s (%s)", desc)
+			}
+			api.mu.Lock()
+			api.rv += 10
+			api.eds[0] = mkEDS(0, seed+977)
+			api.eds[0].ResourceVersion = fmt.Sprint(api.rv)
+			raw, _ := json.Marshal(&api.eds[0])
+			after := c20Expected(api.eds, api.ers)
+			api.mu.Unlock()
+			sent := make(chan bool, 1)
+			go func() { sent <- send("extendeddaemonsets", []byte(`{"type":"MODIFIED","object":`+string(raw)+`}`)) }()
+			doneB := make(chan []string, 1)
+			go func() {
+				lines, _ := scrape()
+				doneB <- lines
+			}()
+			time.Sleep(300 * time.Millisecond) // the change and the second scrape get their chance while the first one is held
+			close(sw.release)
+			var textA []string
+			select {
+			case p := <-doneA:
+				if p != "" {
+					add("C20/store/scrape-panics", "overlapping scrapes: "+p)
+				}
+				textA = c20Lines(sw.buf.String())
+			case <-time.After(60 * time.Second):
+				rt.Fatalf("harness: the slow scrape did not finish within 60s (%s)", desc)
+			}
+			var textB []string
+			select {
+			case textB = <-doneB:
+			case <-time.After(60 * time.Second):
+				rt.Fatalf("harness: the second scrape did not finish within 60s (%s)", desc)
+			}
+			<-sent
+			for name, got := range map[string][]string{"the slow scrape": textA, "the scrape served meanwhile": textB} {
+				if len(vs) == 0 && !same(got, before) && !same(got, after) {
+					add("C20/store/overlapping-scrapes-mix-states", fmt.Sprintf("%s returned a text that matches neither the objects before nor after the change made during it\n got:\n%s\nbefore:\n%s\nafter:\n%s", name, strings.Join(got, "\n"), strings.Join(before, "\n"), strings.Join(after, "\n")))
+				}
+			}
+			if len(vs) == 0 {
+				ok = settleStep("after the overlapping scrapes")
+			}
+		}
 		rec.Case(relisted, evid.FP(desc), fmt.Sprintf("relist=%v", relisted))
 		rec.Steps(len(steps) + 1)
 		if relisted && rec.WantSample() {
@@ -367,4 +445,26 @@ func TestC20Store(t *testing.T) {
 		}
 		settle(rt, rec, vs, map[string]interface{}{"config": desc}, len(steps), "")
 	})
+}
+
+// c20SlowWriter is a scraper that takes the first half of the first chunk it is handed and then stalls until released.
+type c20SlowWriter struct {
+	header  http.Header
+	buf     bytes.Buffer
+	once    sync.Once
+	blocked chan struct{}
+	release chan struct{}
+}
+
+func (w *c20SlowWriter) Header() http.Header { return w.header }
+func (w *c20SlowWriter) WriteHeader(int)     {}
+func (w *c20SlowWriter) Write(p []byte) (int, error) {
+	half := len(p) / 2
+	w.buf.Write(p[:half])
+	w.once.Do(func() {
+		close(w.blocked)
+		<-w.release
+	})
+	w.buf.Write(p[half:])
+	return len(p), nil
 }
